@@ -33,6 +33,8 @@ def write_file(msgs, codec, cfg, blocked, use_with=False, many=False, positional
     from cardutil import mciipm
     f = KeepOpen()
     kw = dict(encoding=codec, blocked=blocked)
+    if codec is None:
+        del kw['encoding']
     if cfg is not None:
         kw['iso_config'] = cfg
     if positional:
@@ -65,12 +67,15 @@ def impl_eval(case):
     msgs = [iu.dict_unwire(w) for w in case['msgs']]
     exps = [iu.dict_unwire(w) for w in case['exps']]
     try:
-        data = write_file(msgs, codec, None if case['cfg'] == 'pkg' and case.get('defaultcfg') else cfg, blocked,
+        data = write_file(msgs, None if case.get('noenc') else codec,
+                          None if case['cfg'] == 'pkg' and case.get('defaultcfg') else cfg, blocked,
                           use_with=case.get('with', False), many=case.get('many', False),
                           positional=case.get('positional', False))
     except Exception as ex:  # noqa
         return {'obs': ['write:' + iu.exc_kind(ex), 'n/a'], 'violation': f'writing well-formed messages failed: {ex!r}'}
     kw = dict(encoding=codec, blocked=blocked)
+    if case.get('noenc'):
+        del kw['encoding']
     if not (case['cfg'] == 'pkg' and case.get('defaultcfg')):
         kw['iso_config'] = cfg
     if case.get('positional'):
@@ -269,6 +274,33 @@ def explore(run, tier):
                                   'msgs': [iu.dict_wire(m) for m, _ in pairs], 'exps': [iu.dict_wire(e) for _, e in pairs],
                                   'with': i % 2 == 0, 'many': i % 4 == 0, 'defaultcfg': cfg == 'pkg' and i % 3 == 0,
                                   'positional': i % 5 == 0})
+    # two logical files — file header (1644 / function code 697) ... file trailer (1644 / 695) — in ONE physical file:
+    # every message is a record like any other, wherever the trailer messages stand
+    for codec in codecs3:
+        for b in (0, 1):
+            body = []
+            for _ in range(4):
+                m, e = iu.gen_message(rng, pkg, codec, with_pds=False)
+                if len(iu.ref_encode(m, pkg, codec, False)) <= 900:
+                    body.append((m, e))
+            hdr = {'MTI': '1644', 'DE24': '697', 'DE71': 1}
+            trl = {'MTI': '1644', 'DE24': '695', 'DE71': 9}
+            pairs = [(hdr, hdr)] + body[:2] + [(trl, trl), (hdr, hdr)] + body[2:] + [(trl, trl)]
+            cases.append({'k': 'file', 'cfg': 'pkg', 'codec': codec, 'b': b,
+                          'msgs': [iu.dict_wire(m) for m, _ in pairs], 'exps': [iu.dict_wire(e) for _, e in pairs],
+                          'with': False, 'many': b == 1, 'defaultcfg': True})
+    # writer and reader created WITHOUT an encoding (the documented default, latin-1), text over the whole byte range
+    for b in (0, 1):
+        pairs = []
+        while len(pairs) < 6:
+            m, e = iu.gen_message(rng, pkg, 'latin_1', with_pds=False)
+            if len(iu.ref_encode(m, pkg, 'latin_1', False)) <= 900:
+                pairs.append((m, e))
+        extra = {'MTI': '1240', 'DE38': '\xa4\xa6\xa8\xb4\xb8\xbc', 'DE42': '\xbd\xbeCAF\xc9 \xd6l\xdf XX  '}
+        pairs.append((extra, extra))
+        cases.append({'k': 'file', 'cfg': 'pkg', 'codec': 'latin_1', 'b': b, 'noenc': True,
+                      'msgs': [iu.dict_wire(m) for m, _ in pairs], 'exps': [iu.dict_wire(e) for _, e in pairs],
+                      'with': False, 'many': False, 'defaultcfg': True})
     # messages mixing PDSxxxx keys with a directly supplied later carrier element
     for codec in codecs3:
         for b in (0, 1):
